@@ -16,6 +16,8 @@ SUMMARISED = {
     ('jedi.api.classes', 'BaseName.get_definition_start_position'): 'C17: definition start = start of the defining node (the name\'s own position without one)',
     ('jedi.api.classes', 'BaseName.get_definition_end_position'): 'C17: definition end = end of the defining node; the newline that ends a def/class suite is excluded',
     ('jedi.api.classes', 'Name.is_definition'): 'C17: is_definition() is the token\'s own is_definition(); names without a token are definitions',
+    ('jedi.inference.filters', 'ParserTreeFilter._filter'): 'C03: a per-scope filter answers with the names before the position (super()._filter), of its own scope (_is_name_reachable), latest reachable first (_check_flows) - composed in this order',
+    ('jedi.inference.filters', 'AbstractFilter._filter'): 'C03: with a position limit only names that START before it are kept (strictly); without one all names',
     ('jedi.api.project', 'Project.load'): 'C20: load accepts exactly the version that save writes and builds the project from the stored settings',
 }
 _cache = None
